@@ -350,7 +350,7 @@ Lemma object_removed_spec n o :
   n_name (fst r) = n_name n /\ n_next (fst r) = n_next n /\
   (forall m, In m (msgs_of (snd r)) -> exists s', m = MRemoved o s') /\
   reqids_of (snd r) = [] /\
-  (forall c p s, nodot (n_name n) = true -> nodot o = true -> nodot c = true -> nodot p = true ->
+  (forall c p s, nodot (n_name n) = true -> nodot c = true ->
      c <> n_name n -> Lk (fst r) c p s = Lk n c p s) /\
   (forall x p s, nodot o = true -> nodot p = true ->
      Rk (fst r) x p s = (if str_eqb o p then false else Rk n x p s)) /\
@@ -368,10 +368,10 @@ Proof.
       unfold send_to in Ho1. destruct (can_send _ x); [|destruct Ho1]. destruct Ho1 as [<-|[]]. eauto. }
     clear EL. induction L as [|o1 L IH]; [reflexivity|].
     simpl. destruct (H o1 (or_introl eq_refl)) as (x & s' & ->). simpl. apply IH. intros o2 Ho2. apply H. right. exact Ho2.
-  - intros c p s Hm Ho Hc Hp Hne. unfold Lk. simpl.
+  - intros c p s Hm Hc Hne. unfold Lk. simpl.
     rewrite (alookup_filter_key str_eqb str_eqb_spec (fun k => negb (startswith (n_name n ++ DOT :: o ++ [DOT]) k))).
     destruct (startswith (n_name n ++ DOT :: o ++ [DOT]) (key3 c p s)) eqn:E; [|reflexivity].
-    apply prefix_obj3 in E as [E _]; try assumption. congruence.
+    unfold key3 in E. apply startswith_nodot_prefix in E; try assumption. congruence.
   - intros x p s Ho Hp. unfold Rk. simpl.
     rewrite (alookup_filter_key str_eqb str_eqb_spec (fun k => negb (startswith (o ++ [DOT]) k))).
     destruct (startswith (o ++ [DOT]) (key2 p s)) eqn:E.
